@@ -1,7 +1,7 @@
 (* Bag.v -- model of container_utils.BagValDict (cycle records).
    A record is the underlying defaultdict as an association list in insertion
    order; keys may map to empty lists (created by mere look-ups in Python). *)
-From PS Require Import Base.
+From PS Require Import Base Str.
 
 Inductive label := LD | LS | LU.                    (* StallState: 'D' < 'S' < 'U' *)
 Definition label_eqb (a b : label) : bool :=
@@ -48,9 +48,9 @@ Fixpoint join (sep : string) (l : list string) : string :=
   | [x] => x
   | x :: t => x ++ sep ++ join sep t
   end.
-(* keys restricted (by the harness) to text whose Python repr is '<text>' *)
+(* keys are shown with repr(str) (Str.py_repr_str) *)
 Definition show_item (kv : string * list entry) : string :=
-  "'" ++ fst kv ++ "': [" ++ join ", " (map show_entry (snd kv)) ++ "]".
+  py_repr_str (fst kv) ++ ": [" ++ join ", " (map show_entry (snd kv)) ++ "]".
 Definition bag_repr (r : record) : string :=
   "BagValDict({" ++ join ", " (map show_item (canon_record r)) ++ "})".
 Close Scope string_scope.
